@@ -211,7 +211,7 @@ def main(argv=None):
         e = match_known(v, known)
         (matched if e else new).append((v, e))
     lines = []
-    rdir = os.path.join(env.VERIF, "evidence", "replay", pid)
+    rdir = os.path.join(os.environ.get("VERIF_EVIDENCE_DIR") or os.path.join(env.VERIF, "evidence"), "replay", pid)
     for v, _ in new[:40]:
         os.makedirs(rdir, exist_ok=True)
         name = hashlib.sha1(f"{v['property']}|{v['mechanism']}".encode()).hexdigest()[:12] + ".json"
@@ -256,8 +256,9 @@ def main(argv=None):
         "wall_s": wall,
         "violations": len(new),
     }
-    os.makedirs(os.path.join(env.VERIF, "evidence"), exist_ok=True)
-    dump(os.path.join(env.VERIF, "evidence", f"{pid}.json"), ev)
+    evdir = os.environ.get("VERIF_EVIDENCE_DIR") or os.path.join(env.VERIF, "evidence")
+    os.makedirs(evdir, exist_ok=True)
+    dump(os.path.join(evdir, f"{pid}.json"), ev)
 
     tl = ", ".join(f"{k}={v}" for k, v in list(cov["tallies"].items())[:14])
     print(
